@@ -35,6 +35,10 @@ pub struct Params {
     pub faults: bool,
     /// max lease-renewal requests of the background task per execution (horizon)
     pub renewals: usize,
+    /// one more L0 chunk in hour A whose rows straddle the boundary to the next hour (the merged chunk then spans
+    /// two hour buckets)
+    #[serde(default)]
+    pub straddle: bool,
 }
 
 pub fn compactor_config() -> CompactorConfig {
@@ -194,6 +198,14 @@ impl Scenario for C03Scenario {
         let hour_b = hour_bucket(now) - 3 * HOUR + 60_000_000_000;
         let mut all = Vec::new();
         for (p, rows) in mk(self.p.l0_a, hour_a, "l0a") {
+            put_chunk(&self.mem, meta.as_ref(), &p, &rows, true).await;
+            self.original_levels.insert(p.clone(), 0);
+            all.extend(rows.iter().map(|r| r.id));
+        }
+        if self.p.straddle {
+            let end_a = hour_bucket(now);
+            let rows = vec![row(end_a - 1, 9001), row(end_a, 9002), row(end_a + 1_000_000, 9003)];
+            let p = "t/data/l0a_straddle.parquet".to_string();
             put_chunk(&self.mem, meta.as_ref(), &p, &rows, true).await;
             self.original_levels.insert(p.clone(), 0);
             all.extend(rows.iter().map(|r| r.id));
@@ -380,6 +392,16 @@ impl Scenario for C03Scenario {
                 });
             }
         }
+        // every row is found by a point lookup of its own timestamp (time index of the merged chunks)
+        if f.violations.is_empty() {
+            let fresh: Arc<dyn MetadataClient> = if self.is_os() { Arc::new(os_client(self.mem.clone())) } else { self.local.clone() };
+            if let Err((p, id, ts, got)) = rows_found_by_time(&self.mem, fresh.as_ref(), &paths, &mut BTreeMap::new()).await {
+                f.violations.push(Violation {
+                    sig: format!("C03:row-not-found-by-time-range:{}", self.p.backend),
+                    msg: format!("row id {id} (timestamp {ts}) lives in the listed chunk {p}, but get_chunks([{ts},{ts}]) returns {got:?}: the row is unqueryable by time"),
+                });
+            }
+        }
         // Epilogue: let the grace period pass and give every live compactor one more (fault-free) cycle, so that
         // whatever the explored cycle scheduled for deletion is actually deleted; then the catalog must still only
         // list objects that exist, and the reachable rows must still be exactly the original ones.
@@ -438,7 +460,7 @@ pub fn factory(p: Params) -> ScenarioFactory {
 }
 
 fn base(name: &str, backend: &str, nodes: usize) -> Params {
-    Params { name: name.into(), backend: backend.into(), nodes, cycles: 1, l0_a: 3, l0_b: 0, l1: 0, crash: false, clock: false, faults: false, renewals: 1 }
+    Params { name: name.into(), backend: backend.into(), nodes, cycles: 1, l0_a: 3, l0_b: 0, l1: 0, crash: false, clock: false, faults: false, renewals: 1, straddle: false }
 }
 
 pub fn plans(tier: &str) -> Vec<(Params, Cost)> {
@@ -448,6 +470,9 @@ pub fn plans(tier: &str) -> Vec<(Params, Cost)> {
         // single compactor: every fault / crash / expiry position
         v.push((Params { faults: true, ..base(&format!("one-compactor/faults/{backend}"), backend, 1) }, Cost { fault: if t { 2 } else { 1 }, ..Cost::ZERO }));
         v.push((Params { crash: true, ..base(&format!("one-compactor/crash/{backend}"), backend, 1) }, Cost { crash: 1, preempt: 1, ..Cost::ZERO }));
+        // merged chunk spanning two hour buckets; two levels in two cycles (L0 -> L1 -> L2 across hours)
+        v.push((Params { straddle: true, crash: true, ..base(&format!("one-compactor/straddling-chunk/crash/{backend}"), backend, 1) }, Cost { crash: 1, ..Cost::ZERO }));
+        v.push((Params { straddle: true, l0_a: 2, l0_b: 2, l1: 1, cycles: 2, ..base(&format!("one-compactor/straddling-chunk+two-hours+l1/two-cycles/{backend}"), backend, 1) }, Cost::ZERO));
         // two compactors: interleavings
         v.push((base(&format!("two-compactors/interleavings/{backend}"), backend, 2), Cost { preempt: if t { 3 } else { 2 }, ..Cost::ZERO }));
         v.push((Params { clock: true, ..base(&format!("two-compactors/lease-expiry/{backend}"), backend, 2) }, Cost { preempt: if t { 2 } else { 1 }, clock: 1, ..Cost::ZERO }));
